@@ -78,3 +78,58 @@ impl TimeZoneProvider for TableProvider {
         }
     }
 }
+
+
+// ---------------------------------------------------------------------------------------------
+// either the harness table provider or the crate's bundled provider (end-to-end classes of C13 / C14)
+
+use temporal_rs::tzdb::FsTzdbProvider;
+
+thread_local! {
+    // FsTzdbProvider keeps a RefCell cache and is not Sync: one per thread, leaked
+    static BUNDLED: &'static FsTzdbProvider = Box::leak(Box::new(FsTzdbProvider::default()));
+}
+
+pub fn bundled() -> &'static FsTzdbProvider {
+    BUNDLED.with(|f| *f)
+}
+
+pub enum AnyProvider {
+    Table(TableProvider),
+    Bundled(&'static FsTzdbProvider),
+}
+
+impl AnyProvider {
+    pub fn set_reverse(&mut self, reverse: bool) {
+        if let AnyProvider::Table(t) = self {
+            t.reverse_candidates = reverse;
+        }
+    }
+}
+
+impl TimeZoneProvider for AnyProvider {
+    fn check_identifier(&self, identifier: &str) -> bool {
+        match self {
+            AnyProvider::Table(t) => t.check_identifier(identifier),
+            AnyProvider::Bundled(f) => f.check_identifier(identifier),
+        }
+    }
+    fn get_named_tz_epoch_nanoseconds(&self, identifier: &str, local: IsoDateTime) -> TemporalResult<Vec<EpochNanoseconds>> {
+        match self {
+            AnyProvider::Table(t) => t.get_named_tz_epoch_nanoseconds(identifier, local),
+            AnyProvider::Bundled(f) => f.get_named_tz_epoch_nanoseconds(identifier, local),
+        }
+    }
+    fn get_named_tz_offset_nanoseconds(&self, identifier: &str, epoch_nanoseconds: i128) -> TemporalResult<TimeZoneOffset> {
+        match self {
+            AnyProvider::Table(t) => t.get_named_tz_offset_nanoseconds(identifier, epoch_nanoseconds),
+            AnyProvider::Bundled(f) => f.get_named_tz_offset_nanoseconds(identifier, epoch_nanoseconds),
+        }
+    }
+    fn get_named_tz_transition(&self, identifier: &str, epoch_nanoseconds: i128, direction: TransitionDirection) -> TemporalResult<Option<EpochNanoseconds>> {
+        match self {
+            AnyProvider::Table(t) => t.get_named_tz_transition(identifier, epoch_nanoseconds, direction),
+            AnyProvider::Bundled(f) => f.get_named_tz_transition(identifier, epoch_nanoseconds, direction),
+        }
+    }
+}
